@@ -200,22 +200,27 @@ Definition assembled_decompose (t : assembled_task) : list problem :=
 (* ValidatedExternalEquivalenceTask::decompose; Panic = unreachable!() on a Lemma / Definition /
    InductiveLemma role among the left or right formulas (reachable: `definition` passes
    ensure_specification_roles_are_supported) *)
-Definition validated_decompose (t : validated_task) : result (list ext_warning * list problem) ext_error :=
+Definition validated_assemble (t : validated_task) : option (list ext_warning * assembled_task) :=
   let s0 := mkvacc (map (fun a => into_problem_formula a PAxiom) (vt_user_guide_assumptions t)) [] [] [] [] [] in
   match fold_opt (validated_left_step (vt_break t)) (vt_left t) s0 with
-  | None => Panic
+  | None => None
   | Some s1 =>
       match fold_opt (validated_right_step (vt_break t)) (vt_right t) s1 with
-      | None => Panic
+      | None => None
       | Some s =>
-          Ok (va_warn s,
-              assembled_decompose
-                (mkassembled (va_stable s) (va_fp s) (va_fc s) (va_bp s) (va_bc s)
-                             (vt_proof_outline t) (vt_decomposition t) (vt_direction t)))
+          Some (va_warn s,
+                mkassembled (va_stable s) (va_fp s) (va_fc s) (va_bp s) (va_bc s)
+                            (vt_proof_outline t) (vt_decomposition t) (vt_direction t))
       end
+  end.
+Definition validated_decompose (t : validated_task) : result (list ext_warning * list problem) ext_error :=
+  match validated_assemble t with
+  | None => Panic
+  | Some (w, a) => Ok (w, assembled_decompose a)
   end.
 
 (* ---------- the ensure_* checks ---------- *)
+Definition is_nil {A} (l : list A) : bool := match l with [] => true | _ => false end.
 Definition head_predicates_fol (p : program) : list pred := program_head_preds p.
 
 (* first repeated name among the placeholders (set of (name, sort)) *)
@@ -274,12 +279,12 @@ Definition external_validate (t : ext_task) : result (list ext_warning) ext_erro
   match et_repr t with
   | ReprMu => Err UnsupportedFormulaRepresentation
   | ReprTauStar =>
-  if negb (match iset_inter pred_dec inputs outputs with [] => true | _ => false end) then Err InputOutputPredicatesOverlap
+  if negb (is_nil (iset_inter pred_dec inputs outputs)) then Err InputOutputPredicatesOverlap
   else match ensure_program_tightness t (et_program t) with
   | Err e => Err e | Panic => Panic
   | Ok w1 =>
   if has_private_recursion (et_program t) prog_private then Err ProgramContainsPrivateRecursion
-  else if negb (match iset_inter pred_dec inputs (head_predicates_fol (et_program t)) with [] => true | _ => false end)
+  else if negb (is_nil (iset_inter pred_dec inputs (head_predicates_fol (et_program t))))
        then Err InputPredicateInRuleHead
   else if placeholder_clash (ug_placeholders u) [] then Err PlaceholdersWithIdenticalNamesDifferentSorts
   else if negb (assumptions_only_input [] inputs (ug_formulas u)) then Err AssumptionContainsNonInputSymbols
@@ -290,7 +295,7 @@ Definition external_validate (t : ext_task) : result (list ext_warning) ext_erro
         | Err e => Err e | Panic => Panic
         | Ok w2 =>
             if has_private_recursion p spec_private then Err ProgramContainsPrivateRecursion
-            else if negb (match iset_inter pred_dec inputs (head_predicates_fol p) with [] => true | _ => false end)
+            else if negb (is_nil (iset_inter pred_dec inputs (head_predicates_fol p)))
                  then Err InputPredicateInRuleHead
             else Ok (w1 ++ w2)
         end
@@ -311,7 +316,6 @@ Definition task_spec_private (t : ext_task) : list pred :=
   end.
 Definition task_prog_private (t : ext_task) : list pred :=
   private_predicates (ug_public_predicates (et_user_guide t)) (program_preds (et_program t)).
-Definition is_nil {A} (l : list A) : bool := match l with [] => true | _ => false end.
 
 (* 1. both programs are tight, unless --bypass-tightness *)
 Definition c_tight (t : ext_task) : bool :=
